@@ -41,37 +41,57 @@ theorem sidefiles_lag_drop_after_rename :
     (dropAfter 7 (putObjectProg { frames := [.ok [1]], hasMeta := true }) (initSt (some [0]) .old .old)).info = .old := by
   decide
 
-/-- `complete-metadata-early:part-missing` (F-fswrite-5): `complete_multipart_upload` with a missing part:
-    `InternalError`, content unchanged, but the metadata already replaced and the upload record gone -/
-theorem complete_metadata_early_part_missing :
+/-! ## repaired by 0932917: `complete-metadata-early:*` (F-fswrite-5 … F-fswrite-9)
+
+Before the repair `complete_multipart_upload` removed the upload record and overwrote the object's metadata file before it
+assembled the content; the former witnesses now satisfy the property (regression facts; the general statements are
+`C19_complete_all_or_nothing` and `C19_failed_complete_changes_nothing`). -/
+
+/-- was `complete-metadata-early:part-missing` (F-fswrite-5): a missing part is `InvalidPart` and NOTHING has changed —
+    content, metadata, checksum record, upload record -/
+theorem complete_part_missing_changes_nothing :
     run (completeProg { parts := [.missing], hasMeta := true }) (initSt (some [0]) .old .old) =
-      (.internalError, { dest := some [0], tmp := false, owned := false, acc := [], mdata := .new, info := .old,
-                         uploadRec := false, partsGone := 0, pulled := 0, dirs := false }) := by decide
+      (.invalidPart, initSt (some [0]) .old .old) := by decide
 
-/-- `complete-metadata-early:part-too-small` (F-fswrite-6) -/
-theorem complete_metadata_early_part_too_small :
-    (run (completeProg { parts := [.present [1] false, .present [2] true], hasMeta := true })
-      (initSt (some [0]) .old .old)).1 = .entityTooSmall ∧
-    (run (completeProg { parts := [.present [1] false, .present [2] true], hasMeta := true })
-      (initSt (some [0]) .old .old)).2.dest = some [0] ∧
-    (run (completeProg { parts := [.present [1] false, .present [2] true], hasMeta := true })
-      (initSt (some [0]) .old .old)).2.mdata = .new := by decide
+/-- was `complete-metadata-early:part-too-small` (F-fswrite-6) -/
+theorem complete_part_too_small_changes_nothing :
+    run (completeProg { parts := [.present [1] false, .present [2] true], hasMeta := true }) (initSt (some [0]) .old .old) =
+      (.entityTooSmall, initSt (some [0]) .old .old) := by decide
 
-/-- `complete-metadata-early:dest-is-dir` / `:parent-is-file` (F-fswrite-7, -8): `done()` fails -/
-theorem complete_metadata_early_done_fails :
+/-- was `complete-metadata-early:dest-is-dir` / `:parent-is-file` (F-fswrite-7, -8): `done()` fails — metadata and upload
+    record as before, no temporary file -/
+theorem complete_done_fails_changes_nothing :
     (run (completeProg { parts := [.present [1] true], hasMeta := true, renameFails := true })
-      (initSt none .old .old)).2.mdata = .new ∧
+      (initSt none .old .old)).2.mdata = .old ∧
+    (run (completeProg { parts := [.present [1] true], hasMeta := true, renameFails := true })
+      (initSt none .old .old)).2.uploadRec = true ∧
     (run (completeProg { parts := [.present [1] true], hasMeta := true, mkdirsFails := true })
-      (initSt none .old .old)).2.mdata = .new ∧
+      (initSt none .old .old)).2.mdata = .old ∧
+    (run (completeProg { parts := [.present [1] true], hasMeta := true, mkdirsFails := true })
+      (initSt none .old .old)).2.uploadRec = true ∧
     (run (completeProg { parts := [.present [1] true], hasMeta := true, mkdirsFails := true })
       (initSt none .old .old)).2.tmp = false := by decide
 
-/-- `complete-metadata-early:drop-before-rename` (F-fswrite-9): abandoned after the metadata was moved -/
-theorem complete_metadata_early_drop_before_rename :
-    (dropAfter 4 (completeProg { parts := [.present [1] true], hasMeta := true }) (initSt (some [0]) .old .old)).dest
-      = some [0] ∧
-    (dropAfter 4 (completeProg { parts := [.present [1] true], hasMeta := true }) (initSt (some [0]) .old .old)).mdata
-      = .new := by decide
+/-- was `complete-metadata-early:drop-before-rename` (F-fswrite-9): abandoned at any position before the rename (here: one
+    part, positions 0 … 6; position 3 is `tmp-leftover:drop-at-create`): previous content, previous metadata, the upload
+    record still there -/
+theorem complete_drop_before_rename_changes_nothing :
+    ∀ k ∈ [0, 1, 2, 4, 5, 6],
+      dropAfter k (completeProg { parts := [.present [1] true], hasMeta := true }) (initSt (some [0]) .old .old) =
+        { initSt (some [0]) .old .old with acc := if k ≥ 5 then [1] else [], dirs := decide (k = 6) } := by decide
+
+/-- what remains after the repair is the lag of the side files behind the content, as for `put_object`: abandoned right
+    after the rename (position 7 with one part) the content is new, the metadata still the previous object's
+    (`sidefiles-lag:drop-after-rename`, F-fswrite-4); a failing metadata write answers an error after the content was
+    replaced (`error-after-rename:sidefile-write-fails`, F-fswrite-3) — the upload record and the part files are still
+    there, so the request can be repeated -/
+theorem complete_sidefiles_lag_after_rename :
+    (dropAfter 7 (completeProg { parts := [.present [1] true], hasMeta := true }) (initSt (some [0]) .old .old)).dest
+      = some [1] ∧
+    (dropAfter 7 (completeProg { parts := [.present [1] true], hasMeta := true }) (initSt (some [0]) .old .old)).mdata
+      = .old ∧
+    run (completeProg { parts := [.present [1] true], hasMeta := true, metaFails := true }) (initSt (some [0]) .old .old) =
+      (.internalError, { initSt (some [0]) .old .old with dest := some [1], acc := [1], dirs := true }) := by decide
 
 /-- before 3229285 the comparison came after `done()`: in the model, the program with `check` after `rename`
     (`error-after-rename:checksum`, F-fswrite-1, fixed) -/
